@@ -103,7 +103,7 @@ DupFaults(s) ==
   LET ents == { Append(s, s[e]) : e \in {e \in 1..Len(s) : s[e].k \in GlobKinds \cup {"type", "comdat", "md"} /\ s[e].n # ""} }
       locs == { [s EXCEPT ![e] = [@ EXCEPT !.locals = Append(@, [@[l] EXCEPT !.refs = <<>>])]] :
                   <<e, l>> \in {<<e, l>> \in (1..Len(s)) \X (1..16) : l <= Len(s[e].locals) /\ s[e].locals[l].n # ""
-                                                                       /\ s[e].locals[l].lk \in {"inst", "block"}} }
+                                                                       /\ s[e].locals[l].lk \in {"inst", "block", "param"}} }
       \* an unnamed global entity defined a second time under the NUMBER it was given (`@0 = ...` twice):
       \* the copy carries the number as its name, so it is rendered with that explicit ID
       unn == { Append(s, [s[e] EXCEPT !.n = KeyOf(s, e)]) : e \in {e \in 1..Len(s) : s[e].k \in GlobKinds /\ s[e].n = ""} }
